@@ -41,8 +41,12 @@ def gen_model(rng, sw):
     spec["user_cons"] = []
     if sw["extra_cons"]:
         rs = rng.sample(ids, min(len(ids), 2))
-        spec["user_cons"].append({"name": "ucon0", "expr": [[r, rng.choice([1, -1, 2])] for r in rs],
-                                  "lb": rng.choice([None, -5, 0]), "ub": rng.choice([5, 10, 100])})
+        if rng.random() < 0.4:
+            v = rng.choice([1, 2, 0.5, 5])  # an equality with non-zero right-hand side: an inhomogeneous problem
+            spec["user_cons"].append({"name": "ucon0", "expr": [[r, 1] for r in rs], "lb": v, "ub": v})
+        else:
+            spec["user_cons"].append({"name": "ucon0", "expr": [[r, rng.choice([1, -1, 2])] for r in rs],
+                                      "lb": rng.choice([None, -5, 0]), "ub": rng.choice([5, 10, 100])})
     return spec
 
 
@@ -75,6 +79,9 @@ class World:
         self.stats[f"op:{m}"] += 1
         raised = None
         sampler, df = None, None
+        self.ctx.solver_calls = 0
+        self.ctx.fault = op.get("fault")
+        self.ctx.fault_fired = 0
         try:
             with warnings.catch_warnings(), contextlib.redirect_stdout(hist._DEVNULL):
                 warnings.simplefilter("ignore")
@@ -88,6 +95,11 @@ class World:
                     df = sampler.sample(n, fluxes=op.get("fluxes", True))
         except Exception as e:
             raised = e
+        finally:
+            self.ctx.fault = None
+        faulted = self.ctx.fault_fired > 0
+        if faulted:
+            self.stats["faulted_calls"] += 1
         after = S.snap(self.model)
         d = S.diff(before, after)
         if d:
@@ -99,6 +111,9 @@ class World:
                 self.stats["refusals"] += 1
                 self.stats[f"refusal:{type(raised).__name__}:{str(raised)[:50]}"] += 1
                 return
+            if faulted:
+                self.stats["refusals_under_fault"] += 1
+                return  # any exception is an acceptable answer to a failed solver call; wrong samples are not
             raise Violation("sampler_raises", {"exception": repr(raised)[:300]}, culprit=op)
         self.changed = True
         fluxes = op.get("fluxes", True) or op.get("via") == "function"
@@ -147,7 +162,7 @@ class World:
                     raise Violation("validate_agrees", {"what": "validate() accepts a sample moved 5000 units out of bounds"}, culprit=op)
                 self.stats["probe:validate_perturbation_checked"] += 1
         # ---- seed replay ----
-        if op.get("seed") is not None:
+        if op.get("seed") is not None and not faulted and not op.get("fault"):
             key = digest({k: v for k, v in op.items() if k not in ("perturb_col",)})
             sig = [[round(x, 12) for x in row] for row in rows]
             if key in self.results:
@@ -186,7 +201,7 @@ class World:
 def make_swarm(rng):
     return {"max_mets": rng.randint(2, 4), "max_rxns": rng.randint(1, 4), "n_genes": 2, "p_rule": 0.1,
             "solver": "glpk", "shape": rng.choice(["homogeneous", "homogeneous", "forced", "fixed", "mixed"]),
-            "extra_cons": rng.random() < 0.35}
+            "extra_cons": rng.random() < 0.45}
 
 
 def gen_ops(rng, W):
@@ -198,6 +213,11 @@ def gen_ops(rng, W):
               "fluxes": rng.random() < 0.7, "via": rng.choice(["object", "object", "function"]),
               "processes": rng.choice([1, 1, 2, 3, 4]) if m == "optgp" else 1, "perturb_col": rng.randint(0, 5)}
         yield op
+        if rng.random() < 0.25:
+            # a warm-up solve fails (numerically hard models do that): the sampler skips it - the samples must stay feasible
+            f = copy.deepcopy(op)
+            f["fault"] = {"k": rng.randint(1, 12), "verdict": rng.choice(["infeasible", "undefined", "time_limit"])}
+            yield f
         if op["seed"] is not None:
             yield {"op": "perturb_rng", "seed": rng.randint(0, 2 ** 31 - 1), "draws": rng.randint(0, 5)}
             yield copy.deepcopy(op)
